@@ -2,7 +2,7 @@
 # usage: tools/run_seeded.sh <ID> <variant-dir> [tier]
 # Applies a seeded change to a scratch worktree of /repo's HEAD (never to /repo), runs the check against it
 # (VERIF_REPO), removes the worktree. Evidence/replays of such runs go to a scratch copy of /verif outputs.
-ID=$1; DIR=$2; TIER=${3:-quick}
+ID=$1; DIR=$(cd "$2" && pwd); TIER=${3:-quick}
 NAME=$(basename $(dirname $DIR))_$(basename $DIR)
 WT=/tmp/seedwt/$NAME.$$
 mkdir -p /tmp/seedwt
